@@ -413,7 +413,7 @@ func checkInitiator(t failer, c icase) iresult {
 }
 
 func TestC03Initiator(t *testing.T) {
-	ev.Check(t, 2500, 15000, func(rt *rapid.T) {
+	ev.Check(t, 10000, 40000, func(rt *rapid.T) {
 		c := genICase(rt)
 		sel := expectedMech(c)
 		classes := []string{"initiator", "selected:" + sel}
@@ -664,7 +664,7 @@ func checkReceiver(t failer, c rcase) rresult {
 }
 
 func TestC03Receiver(t *testing.T) {
-	ev.Check(t, 2500, 15000, func(rt *rapid.T) {
+	ev.Check(t, 10000, 40000, func(rt *rapid.T) {
 		c := genRCase(rt)
 		var classes []string
 		for _, s := range c.steps {
